@@ -394,6 +394,7 @@ pub fn run(opts: &HashMap<String, String>) -> i32 {
         let parser = kinds[(id as usize) % kinds.len()];
         let lits = gen::lit_types(parser);
         let lit = lits[rng.gen_range(0..lits.len())];
+        let dimacs = matches!(parser, "cnf" | "wcnf" | "gcnf");
         // (i) value -> writer -> parser
         let made: Option<(Vec<u8>, Value, &str)> = match parser {
             "cnf" | "wcnf" | "gcnf" => { let (b, e) = dimacs_rt(parser, lit, &mut rng); Some((b, e, parser)) }
@@ -403,14 +404,15 @@ pub fn run(opts: &HashMap<String, String>) -> i32 {
         };
         if let Some((bytes, expect, p)) = made {
             set_expect(Some(expect));
-            let cfg = RunCfg::reference(p, lit, false);
+            // ignore_header must not change what is handed out for a well-formed file (the header itself included)
+            let cfg = RunCfg::reference(p, lit, dimacs && rng.gen_range(0..3) == 0);
             run_traced(id * 10, &bytes, &cfg);
             set_expect(None);
             runs += 1;
         }
         // (ii) text -> parse -> write -> parse
         let text = gen::gen_valid(parser, &mut rng);
-        let flag = false;
+        let flag = dimacs && rng.gen_range(0..3) == 0;
         let cfg = RunCfg::reference(parser, lit, flag);
         run_traced(id * 10 + 1, &text, &cfg);
         runs += 1;
